@@ -176,7 +176,15 @@ def run_C06(tier, seed):
     q = Q(tier)
     sc, _ = stages.pick_scenarios("witness", tier, seed, lambda s: s["expect"]["prove"] == "ok" and nm_of(s) <= 16, 10 if q else 100, prop="C06")
     res.append(stages.trace_stage("C06", "bits", sc, seed, module="TraceProve", consts=TP_CONSTS, calls="prove"))
+    res.append(c06_sizes(tier, seed))
     return res
+
+
+def c06_sizes(tier, seed):
+    # valid witnesses at sizes beyond the everyday ones (bits*aggregation up to 4096) are proved, not refused
+    st = stages.api_stage("C06", "complete", tier, seed, groups=("rist",), filter_fn=lambda s: nm_of(s) >= 512)
+    st.name = "api:complete@large"
+    return st
 
 
 def run_C07(tier, seed):
@@ -207,7 +215,9 @@ def run_C04(tier, seed):
     st.transitions += r["generated"]
     res.append(st)
     # TV-1: at every challenge of every prover and verifier run, everything that precedes it has been absorbed (token mode)
-    sc2, _ = stages.pick_scenarios("alter", tier, seed, verifies, 150 if q else 1500, prop="C04")
+    # (always including proofs that carry dozens of surplus folding rounds: every attached L_j / R_j is absorbed, however many)
+    sc2, _ = stages.pick_scenarios("alter", tier, seed, verifies, 150 if q else 1500, prop="C04",
+                                   must=lambda s: s["sc"]["members"][0]["mut"]["kind"] == "rounds" and s["sc"]["members"][0]["mut"]["j"] >= 61, must_count=8 if q else 40)
     sc3, _ = stages.pick_scenarios("complete", tier, seed, lambda s: honest(s) and nm_of(s) <= 128, 100 if q else 1000, prop="C04")
     # batches whose members live in different contexts, in every mode (each proof's challenges come from ITS transcript)
     sc4, _ = stages.pick_scenarios("recover", tier, seed, lambda s: len(s["sc"]["members"]) >= 2 and len({m["label"] for m in s["sc"]["members"]}) >= 2, 60 if q else 600, prop="C04")
@@ -238,7 +248,10 @@ def run_C08(tier, seed):
 
     def weights_traces():
         # provenance and homogeneity of the weights actually used, on multi-member batches, in 252-bit arithmetic
-        sc, _ = stages.pick_scenarios("batch", tier, seed, lambda s: reaches_msm(s) and nm_of(s) <= 16, 14 if q else 150, prop="C08")
+        # (always: batches holding the same triple twice with one response altered - equal points, different responses: the weight
+        #  rules on the transcript operations apply even where the arithmetic on the final check is skipped)
+        dupx = lambda s: any(m.get("bseed") == 7 and m["mut"]["kind"] == "scalar" for m in s["sc"]["members"]) and any(m.get("bseed") == 7 and m["mut"]["kind"] == "none" for m in s["sc"]["members"])
+        sc, _ = stages.pick_scenarios("batch", tier, seed, lambda s: (reaches_msm(s) or dupx(s)) and nm_of(s) <= 16, 14 if q else 150, prop="C08", must=dupx, must_count=3)
         sc2, _ = stages.pick_scenarios("recover", tier, seed, lambda s: verifies(s) and len(s["sc"]["members"]) >= 2 and s["sc"]["mode"] != "RecoverOnly" and s["sc"]["members"][0]["t"] == 6, 8 if q else 60, prop="C08")
         return stages.trace_stage("C08", "weights", sc + sc2, seed, module="TraceVerify", calls="verify")
 
@@ -267,6 +280,11 @@ def run_C13(tier, seed):
     # the same inputs proved twice with different external RNG streams (seeded and unseeded): all such pairs
     rv, _ = stages.pick_scenarios("hedge", tier, seed, lambda s: s["sc"]["members"][0]["rng"] == "chacha" and s["sc"]["members"][1]["rvar"] == 1, 1000, prop="C13")
     sc = rv + sc
+    # a stuck / constant / short-period external RNG: the nonces of ONE proof stay non-zero and pairwise distinct (every draw comes
+    # from a generator rebuilt on a transcript that has moved on)
+    bad, _ = stages.pick_scenarios("hedge", tier, seed, lambda s: s["sc"]["members"][0]["rng"] in ("zero", "const", "p2") and not s["sc"]["samecommit"]
+                                   and s["sc"]["members"][0] == s["sc"]["members"][1], 6 if q else 40, prop="C13")
+    sc = sc + bad
     sc2, _ = stages.pick_scenarios("complete", tier, seed, lambda s: honest(s) and nm_of(s) <= (8 if q else 32), 14 if q else 150, prop="C13")
     res.append(stages.trace_stage("C13", "nonces", sc + sc2, seed, module="TraceProve", consts={"Strict": "FALSE", "CheckArith": "TRUE", "CrossFresh": "TRUE"}, calls="prove"))
     # long proofs (more folding rounds than the arithmetic replay covers, up to bits*aggregation = 4096): the nonces of EVERY round,
@@ -302,8 +320,8 @@ def run_C14(tier, seed):
     # rekey-with-witness and rebuild-after-absorption on every generator, in bulk (token mode)
     # (always including witnesses of several thousand bytes: many commitments times a high extension degree)
     wbytes = lambda s: max(m["m"] * (8 + 32 * m["t"]) for m in s["sc"]["members"])
-    sc2, _ = stages.pick_scenarios("complete", tier, seed, lambda s: honest(s) and nm_of(s) <= 128, 120 if q else 1200, prop="C14",
-                                   must=lambda s: wbytes(s) > 4096, must_count=3 if q else 12)
+    sc2, _ = stages.pick_scenarios("complete", tier, seed, lambda s: honest(s) and nm_of(s) <= 4096, 120 if q else 1200, prop="C14",
+                                   must=lambda s: wbytes(s) > 4096 or nm_of(s) >= 128 or s["sc"]["members"][0]["m"] >= 16, must_count=10 if q else 60)
     res.append(stages.trace_stage("C14", "rekey", sc2, seed, module="TraceProve", consts={"Strict": "FALSE", "CheckArith": "FALSE", "CrossFresh": "FALSE"}, calls="prove", arith=False, per_file=40))
     res.append(stages.api_stage("C14", "hedge", tier, seed))
     return res
@@ -389,6 +407,12 @@ def run_C19(tier, seed):
     res.append(stages.api_stage("C19", "forge", tier, seed, filter_fn=inr))
     fg, _ = stages.pick_scenarios("forge", tier, seed, lambda s: inr(s) and nm_of(s) <= 16, 10 if q else 80, prop="C19")
     res.append(stages.trace_stage("C19", "reference-prover", fg, seed, module="TraceProve", consts=STRICT_P, calls="prove"))
+    # what a 0.4.0 verifier accepts in one call is still accepted in one call: mixed sizes and capacities beyond the chunk limit, large capacities
+    mixed = lambda s: s["expect"]["verify"] == "ok" and s["sc"]["skew"] == [0, 0, 0] and len({m["m"] for m in s["sc"]["members"]}) >= 2
+    big = stages.api_stage("C19", "batch", tier, seed, groups=("rist",), scale="2:256", scale_min=0, limit=12 if q else 200, filter_fn=mixed)
+    big.name = "api:batch@256"
+    res.append(big)
+    res.append(stages.api_stage("C19", "capacity", tier, seed, groups=("rist",), filter_fn=lambda s: any(m["cap"] >= 64 or m["v"]["cap"] >= 64 for m in s["sc"]["members"])))
     return res
 
 
@@ -441,7 +465,9 @@ def run_C10(tier, seed):
     # beyond the chunk limit: both recovering modes return the same, aligned masks (right seed, wrong seed, no seed in any order)
     res.append(stages.api_stage("C10", "long", tier, seed))
     big = stages.api_stage("C10", "recover", tier, seed, groups=("rist",), scale="2:256", scale_min=0, limit=30 if q else 400,
-                           filter_fn=lambda s: len(s["sc"]["members"]) >= 2 and s["sc"]["mode"] != "VerifyOnly" and s["expect"]["verify"] == "ok" and bool(s["sc"]["fill"]))
+                           filter_fn=lambda s: len(s["sc"]["members"]) >= 2 and s["sc"]["mode"] != "VerifyOnly" and s["expect"]["verify"] == "ok" and bool(s["sc"]["fill"]),
+                           # (always: an aggregated member ahead of two or more seeded ones)
+                           must_fn=lambda s: len(s["sc"]["members"]) >= 3 and s["sc"]["members"][0]["m"] > 1 and sum(1 for m in s["sc"]["members"][1:] if m["v"]["seed"] != 0) >= 2)
     big.name = "api:recover@256"
     res.append(big)
     return res
